@@ -18,7 +18,8 @@ class FaultSim(mosaik_api_v3.Simulator):
         with open(self.logfile, "a") as f:
             f.write(f"{what} {self.sid} {os.getpid()}\n")
 
-    def init(self, sid, time_resolution=1.0, logfile=None, fault=None, api=None, typ=None, **kw):
+    def init(self, sid, time_resolution=1.0, logfile=None, fault=None, api=None, typ=None, slow=0, **kw):
+        self.slow = slow            # seconds every step takes (a healthy simulator that is busy when another one fails)
         if typ:
             self.meta = dict(self.meta, type=typ)
         self.typ = typ or "time-based"
@@ -52,6 +53,9 @@ class FaultSim(mosaik_api_v3.Simulator):
 
     def step(self, time, inputs, max_advance=None):
         self._request("step")
+        if self.slow:
+            import time as _t
+            _t.sleep(self.slow)
         return None if self.typ == "event-based" else time + 1
 
     def get_data(self, outputs):
